@@ -74,7 +74,7 @@ def actions(sysm):
       A(('AddTrialMeasurement', 's', i, 0.5))
     else:
       sysm.pruned += 1
-    for mode in ('final', 'none', 'infeasible', 'infeasible+final'):
+    for mode in ('final', 'none', 'infeasible', 'infeasible-noreason', 'infeasible+final'):
       A(('CompleteTrial', 's', i, mode))
     A(('StopTrial', 's', i))
     A(('DeleteTrial', 's', i))
@@ -85,6 +85,8 @@ def actions(sysm):
   mdn = len(st['md']) + sum(len(t['md']) for t in ts)
   for delta in ([(None, '', 'k', 'v')], [(ids[0] if ids else 9, '', 'k', 'v')], [(None, '', 'k', 'w'), (9, '', 'k', 'v')]):
     A(('UpdateMetadata', 's', tuple(delta)))
+  if cfg.get('switch'):
+    A(('Switch',))      # the next calls go to the other of two live server objects on the same stored data
   return acts
 
 
@@ -109,16 +111,23 @@ def run(ctx):
              ({'backends': ['sqlmem'], 'max_trials': 2, 'max_meas': 1, 'max_ops': 2, 'max_id': 3}, 3),
              # several studies at once (same id under two owners, ids differing by a LIKE wildcard): reduced alphabet, against the model
              ({'backends': ['sqlmem'], 'multi': True, 'studies': ('s_1', 'sx1', 'p@s_1'), 'max_trials': 1, 'max_id': 2, 'clients': ('a',)}, 5),
-             ({'backends': ['ram'], 'multi': True, 'studies': ('s_1', 'sx1', 'p@s_1'), 'max_trials': 1, 'max_id': 2, 'clients': ('a',)}, 5)]
+             ({'backends': ['ram'], 'multi': True, 'studies': ('s_1', 'sx1', 'p@s_1'), 'max_trials': 1, 'max_id': 2, 'clients': ('a',)}, 5),
+             # two live servers on one SQLite file, each of which has already served the study; replay-only on fresh objects
+             ({'backends': ['sqlfile'], 'switch': True, 'fresh_backends': True, 'max_trials': 1, 'max_meas': 1, 'max_ops': 2, 'max_id': 2,
+               'starts': [[('CreateStudy', 's'), ('SuggestTrials', 's', 'a', 1), ('Switch',), ('ListTrials', 's'), ('GetStudy', 's'), ('Switch',)]]}, 2)]
   else:
     plans = [({'backends': ['ram'], 'max_trials': 3, 'max_meas': 2, 'max_ops': 3, 'max_id': 5}, 7),
              ({'backends': ['sqlmem'], 'max_trials': 2, 'max_meas': 1, 'max_ops': 2, 'max_id': 4}, 5),
              ({'backends': ['sqlfile'], 'max_trials': 2, 'max_meas': 1, 'max_ops': 2, 'max_id': 3}, 4),
              ({'backends': ['sqlmem'], 'multi': True, 'studies': ('s_1', 'sx1', 'p@s_1', 'p@S_1'), 'max_trials': 2, 'max_id': 3, 'clients': ('a',)}, 6),
-             ({'backends': ['ram'], 'multi': True, 'studies': ('s_1', 'sx1', 'p@s_1', 'p@S_1'), 'max_trials': 2, 'max_id': 3, 'clients': ('a',)}, 6)]
+             ({'backends': ['ram'], 'multi': True, 'studies': ('s_1', 'sx1', 'p@s_1', 'p@S_1'), 'max_trials': 2, 'max_id': 3, 'clients': ('a',)}, 6),
+             ({'backends': ['sqlfile'], 'switch': True, 'fresh_backends': True, 'max_trials': 2, 'max_meas': 1, 'max_ops': 2, 'max_id': 3,
+               'starts': [[('CreateStudy', 's'), ('SuggestTrials', 's', 'a', 1), ('Switch',), ('ListTrials', 's'), ('GetStudy', 's'), ('Switch',)]]}, 4)]
   cov = {'states': 0, 'transitions': 0, 'traces_validated_against_impl': 0, 'samples': [], 'runs': [], 'exhaustive': True}
   for cfg, depth in plans:
-    s = statespace.Search(ctx, 'expand', depth, cfg)
+    cfg = dict(cfg)
+    starts = cfg.pop('starts', None)
+    s = statespace.Search(ctx, 'expand', depth, cfg, starts=starts)
     fp = s.run()
     c = s.coverage(fp)
     if c['snapshot_vs_replay_mismatches']:
